@@ -711,7 +711,8 @@ def gen_sound(tier, seed, env_text, pid=None):
     # application classes NAMED like builtins, hidden builtin types or typing constructs (a "not given" sentinel class called
     # NoneType, a project's own frozenset / Warning / List), next to the real thing at the same position
     # (classes named like TYPING names collide with the stub's own `from typing import ...`: C11's recorded finding, not repeated here)
-    look = ["mtfx.lookalikes.NoneType", "mtfx.lookalikes.frozenset", "mtfx.lookalikes.Warning", "mtfx.lookalikes.TimeoutError"]
+    look = ["mtfx.lookalikes.NoneType", "mtfx.lookalikes.frozenset", "mtfx.lookalikes.Warning", "mtfx.lookalikes.TimeoutError",
+            "mtfx.shapes.AnyProxy"]       # (and a class deriving from typing.Any)
     real = [A("NoneType"), A("int"), C("list", A("int")), C("tuple", A("int")), A("float")]
     add("application classes named like (hidden) builtins and typing names, next to the real thing",
         [[mk_call("f0", [A(c), r1], A(c)), mk_call("f0", [r2, A(c)], r2)] for c in look for r1 in real[:3] for r2 in real[:2]]
